@@ -14,8 +14,30 @@ Definition c_s : N := 115.    (* s *)
 Definition is_word (c : N) : bool :=
   ((48 <=? c) && (c <=? 57) || (65 <=? c) && (c <=? 90) || (97 <=? c) && (c <=? 122) || (c =? 95))%N.
 
-(* \s for the characters the correspondence run uses: space, \t, \n, \r, \f, \v *)
-Definition is_space (c : N) : bool := ((c =? 32) || (9 <=? c) && (c <=? 13))%N.
+(* \s and str.strip/str.isspace restricted to ASCII (assumption of the model): space, \t \n \v \f \r and the four
+   separator controls \x1c..\x1f, which Python counts as whitespace in both places *)
+Definition is_space (c : N) : bool := ((c =? 32) || (9 <=? c) && (c <=? 13) || (28 <=? c) && (c <=? 31))%N.
+
+(* a placeholder name of the TAG: [\w?-]+ (any Liquid identifier: hyphens, trailing question mark) *)
+Definition is_tname (c : N) : bool := (is_word c || (c =? 45) || (c =? 63))%N.
+Fixpoint take_tname (s : str) : str * str :=
+  match s with
+  | c :: r => if is_tname c then let '(w, rest) := take_tname r in (c :: w, rest) else ([], s)
+  | [] => ([], [])
+  end.
+(* after a '%': "(" [\w?-]+ ")s" *)
+Definition parse_ph_t (r : str) : option (str * str) :=
+  match r with
+  | c :: r1 =>
+      if (c =? 40)%N then
+        let '(w, r2) := take_tname r1 in
+        match w, r2 with
+        | _ :: _, c1 :: c2 :: rest => if ((c1 =? 41) && (c2 =? 115))%N then Some (w, rest) else None
+        | _, _ => None
+        end
+      else None
+  | [] => None
+  end.
 
 Fixpoint take_word (s : str) : str * str :=
   match s with
@@ -158,7 +180,7 @@ Fixpoint collapse (skip : nat) (s : str) : str :=
 
 Definition normalise (msg : str) : str := collapse 0 (strip msg).
 
-(* re_vars.findall for the tag: (?<!%)(?:%%)*%\((\w+)\)s -- a placeholder preceded by an EVEN number of '%' *)
+(* re_vars.findall for the tag: (?<!%)(?:%%)*%\(([\w?-]+)\)s -- a placeholder preceded by an EVEN number of '%' *)
 Fixpoint find_vars_t (skip : nat) (run : nat) (s : str) : list str :=
   match s with
   | [] => []
@@ -168,7 +190,7 @@ Fixpoint find_vars_t (skip : nat) (run : nat) (s : str) : list str :=
       | O =>
           if (c =? c_pct)%N then
             if Nat.even run then
-              match parse_ph r with
+              match parse_ph_t r with
               | Some (n, _) => n :: find_vars_t (length n + 3) 0 r
               | None => find_vars_t 0 (S run) r
               end
@@ -178,6 +200,26 @@ Fixpoint find_vars_t (skip : nat) (run : nat) (s : str) : list str :=
   end.
 Definition find_vars_tag (msg : str) : list str := find_vars_t 0 0 msg.
 
+(* the same with the name pattern \w+ the tag used before the variable-name repair *)
+Fixpoint find_vars_tw (skip : nat) (run : nat) (s : str) : list str :=
+  match s with
+  | [] => []
+  | c :: r =>
+      match skip with
+      | S k => find_vars_tw k 0 r
+      | O =>
+          if (c =? c_pct)%N then
+            if Nat.even run then
+              match parse_ph r with
+              | Some (n, _) => n :: find_vars_tw (length n + 3) 0 r
+              | None => find_vars_tw 0 (S run) r
+              end
+            else find_vars_tw 0 (S run) r
+          else find_vars_tw 0 0 r
+      end
+  end.
+Definition find_vars_tag_w (msg : str) : list str := find_vars_tw 0 0 msg.
+
 Fixpoint mem (x : str) (l : list str) : bool :=
   match l with [] => false | y :: r => str_eqb x y || mem x r end.
 
@@ -186,8 +228,24 @@ Definition format_tag_msg (msg : str) (lk : lookup_fn) : res str :=
   let vars := find_vars_tag msg in
   printf 0 msg (fun k => if mem k vars then Some (lk k) else None).
 
+(* validate_message_block: a variable whose name is not [\w?-]+ (possible with quoted names) is a
+   TranslationSyntaxError when the template is parsed *)
+Definition name_valid (n : str) : bool := match n with [] => false | _ => forallb is_tname n end.
+Fixpoint names_valid (items : list item) : bool :=
+  match items with
+  | [] => true
+  | IChar _ :: r => names_valid r
+  | IVar n :: r => name_valid n && names_valid r
+  end.
+
 Definition format_tag (items : list item) (lk : lookup_fn) : res str :=
-  format_tag_msg (normalise (serialize items)) lk.
+  if names_valid items then format_tag_msg (normalise (serialize items)) lk else Err ESyntax.
+
+(* before the variable-name repair: no check of the name, and \w+ in the pattern that collects the variables *)
+Definition format_tag_names_old (items : list item) (lk : lookup_fn) : res str :=
+  let msg := normalise (serialize items) in
+  let vars := find_vars_tag_w msg in
+  printf 0 msg (fun k => if mem k vars then Some (lk k) else None).
 
 (* the old findall of the tag, (?<!%)%\((\w+)\)s, misses a placeholder that directly follows a '%' of the text *)
 Definition format_tag_msg_old (msg : str) (lk : lookup_fn) : res str :=
@@ -202,43 +260,150 @@ Fixpoint render_items (items : list item) (lk : lookup_fn) : str :=
   | IVar n :: r => lk n ++ render_items r lk
   end.
 
-(* ---- plural selection ---- *)
-Inductive countval := CAbsent | CNil | CBool (b : bool) | CInt (z : Z) | CStrInt (z : Z) | CStrBad.
+(* ---- the declarative reading of the tag's whitespace rule ----
+   A block is, in exactly one way, either blank or
+     lead w1 g1 w2 g2 ... wn trail
+   where the w are non-empty runs of non-whitespace items (characters and variables), the g non-empty runs of
+   whitespace characters, and lead/trail possibly empty whitespace runs.  The message keeps the words; lead and trail
+   go; a gap that contains a newline becomes one space; a gap without a newline stays as it is. *)
+Definition item_space (i : item) : bool := match i with IChar c => is_space c | IVar _ => false end.
+Definition item_nl (i : item) : bool := match i with IChar c => (c =? 10)%N | IVar _ => false end.
+
+Inductive block :=
+| BBlank (ws : list item)
+| BWords (lead : list item) (w1 : list item) (rest : list (list item * list item)) (trail : list item).
+
+Definition gap_out (g : list item) : list item := if existsb item_nl g then [IChar 32%N] else g.
+
+Fixpoint flat_rest (rest : list (list item * list item)) : list item :=
+  match rest with [] => [] | (g, w) :: r => g ++ w ++ flat_rest r end.
+Fixpoint norm_rest (rest : list (list item * list item)) : list item :=
+  match rest with [] => [] | (g, w) :: r => gap_out g ++ w ++ norm_rest r end.
+
+Definition flatten (b : block) : list item :=
+  match b with
+  | BBlank ws => ws
+  | BWords lead w1 rest trail => lead ++ w1 ++ flat_rest rest ++ trail
+  end.
+Definition norm_block (b : block) : list item :=
+  match b with
+  | BBlank _ => []
+  | BWords _ w1 rest _ => w1 ++ norm_rest rest
+  end.
+
+Definition all_space (g : list item) : bool := forallb item_space g.
+Definition is_word_run (w : list item) : bool :=
+  match w with [] => false | _ => forallb (fun i => negb (item_space i)) w end.
+Definition is_gap (g : list item) : bool := match g with [] => false | _ => all_space g end.
+Definition wf_block (b : block) : bool :=
+  match b with
+  | BBlank ws => all_space ws
+  | BWords lead w1 rest trail =>
+      all_space lead && is_word_run w1 && forallb (fun gw => is_gap (fst gw) && is_word_run (snd gw)) rest && all_space trail
+  end.
+
+(* the decomposition, computed (used to show that every block has one) *)
+Fixpoint span_items (p : item -> bool) (l : list item) : list item * list item :=
+  match l with
+  | i :: r => if p i then let '(a, b) := span_items p r in (i :: a, b) else ([], l)
+  | [] => ([], [])
+  end.
+(* [l] starts with a word (or is empty): words and gaps alternately; a final gap is the trail *)
+Fixpoint split_rest (fuel : nat) (l : list item) : list (list item * list item) * list item :=
+  match fuel with
+  | O => ([], l)
+  | S f =>
+      let '(g, r1) := span_items item_space l in
+      match r1 with
+      | [] => ([], g)
+      | _ => let '(w, r2) := span_items (fun i => negb (item_space i)) r1 in
+             let '(rest, trail) := split_rest f r2 in ((g, w) :: rest, trail)
+      end
+  end.
+Definition decompose (items : list item) : block :=
+  let '(lead, r1) := span_items item_space items in
+  match r1 with
+  | [] => BBlank lead
+  | _ => let '(w1, r2) := span_items (fun i => negb (item_space i)) r1 in
+         let '(rest, trail) := split_rest (length r2) r2 in BWords lead w1 rest trail
+  end.
+
+(* ---- message counts ---- *)
+(* int(str) for ASCII strings: surrounding whitespace, one optional sign, digits with single underscores between them *)
+Definition is_digit (c : N) : bool := ((48 <=? c) && (c <=? 57))%N.
+Fixpoint digits_us (s : str) (acc : Z) (prev_digit : bool) : option Z :=
+  match s with
+  | [] => if prev_digit then Some acc else None
+  | c :: r =>
+      if is_digit c then digits_us r (acc * 10 + Z.of_N (c - 48)) true
+      else if ((c =? 95)%N && prev_digit)%bool then digits_us r acc false
+      else None
+  end.
+Definition py_int (s : str) : option Z :=
+  match strip s with
+  | [] => None
+  | c :: r =>
+      if (c =? 43)%N then digits_us r 0 false
+      else if (c =? 45)%N then match digits_us r 0 false with Some z => Some (- z)%Z | None => None end
+      else digits_us (c :: r) 0 false
+  end.
+
+Inductive countval :=
+| CAbsent | CNil | CBool (b : bool) | CInt (z : Z)
+| CFloat (m : Z) (e : nat)          (* the float m / 10^e *)
+| CInf | CNan
+| CStr (s : str)
+| CArr | CHash.
 Inductive form := Singular | Plural.
+
+(* liquid.limits.to_int: int(val), OverflowError (infinity) turned into ValueError *)
+Inductive toint := TI (z : Z) | TIValueError | TITypeError.
+Definition to_int (c : countval) : toint :=
+  match c with
+  | CAbsent | CNil | CArr | CHash => TITypeError
+  | CBool b => TI (if b then 1 else 0)
+  | CInt z => TI z
+  | CFloat m e => TI (Z.quot m (10 ^ Z.of_nat e))      (* int(float) truncates towards zero *)
+  | CInf | CNan => TIValueError
+  | CStr s => match py_int s with Some z => TI z | None => TIValueError end
+  end.
 
 (* gettext.NullTranslations.ngettext *)
 Definition null_ngettext (n : Z) : form := if (n =? 1)%Z then Singular else Plural.
 
-(* the `t` filter: _count *)
-Definition t_count (c : countval) : option Z :=
+(* the `t` filter: _count (None and booleans mean "no count"; to_int; ValueError -> no count; a TypeError
+   becomes the filter's LiquidTypeError) *)
+Definition t_count (c : countval) : res (option Z) :=
   match c with
-  | CAbsent | CNil | CBool _ | CStrBad => None
-  | CInt z | CStrInt z => Some z
+  | CAbsent | CNil | CBool _ => Ok None
+  | _ => match to_int c with TI z => Ok (Some z) | TIValueError => Ok None | TITypeError => Err EType end
   end.
-Definition t_form (has_plural : bool) (c : countval) : form :=
-  match has_plural, t_count c with
-  | true, Some n => null_ngettext n
-  | _, _ => Singular
-  end.
-(* before the fix: `val in (None, False, True)` also swallowed 0 and 1 *)
-Definition t_count_old (c : countval) : option Z :=
+Definition t_form (has_plural : bool) (c : countval) : res form :=
+  do n <- t_count c;
+  Ok (match has_plural, n with true, Some n => null_ngettext n | _, _ => Singular end).
+(* before the infinity repair _count called int() itself and let its OverflowError escape *)
+Definition t_count_inf_old (c : countval) : res (option Z) :=
+  match c with CInf => Err EOverflowError | _ => t_count c end.
+(* before the first repair: `val in (None, False, True)` also swallowed 0 and 1 *)
+Definition t_count_old (c : countval) : res (option Z) :=
   match c with
-  | CAbsent | CNil | CBool _ | CStrBad => None
-  | CInt z => if ((z =? 0) || (z =? 1))%Z then None else Some z
-  | CStrInt z => Some z
+  | CInt z => if ((z =? 0) || (z =? 1))%Z then Ok None else Ok (Some z)
+  | _ => t_count c
   end.
-Definition t_form_old (has_plural : bool) (c : countval) : form :=
-  match has_plural, t_count_old c with
-  | true, Some n => null_ngettext n
-  | _, _ => Singular
-  end.
+Definition t_form_old (has_plural : bool) (c : countval) : res form :=
+  do n <- t_count_old c;
+  Ok (match has_plural, n with true, Some n => null_ngettext n | _, _ => Singular end).
 
-(* the tag: resolve_count (to_int; ValueError and -- since the C02 repair -- TypeError -> 1, so nil counts as 1) *)
+(* ngettext / npgettext filters: int_arg(count, default=1) *)
+Definition ng_count (c : countval) : res Z :=
+  match to_int c with TI z => Ok z | TIValueError => Ok 1%Z | TITypeError => Err EType end.
+Definition ng_form (c : countval) : res form := do n <- ng_count c; Ok (null_ngettext n).
+
+(* the tag: resolve_count (absent -> 1; to_int; ValueError and -- since the C02 repair -- TypeError -> 1) *)
 Definition tag_count (c : countval) : res Z :=
   match c with
-  | CAbsent | CStrBad | CNil => Ok 1%Z
-  | CBool b => Ok (if b then 1 else 0)%Z
-  | CInt z | CStrInt z => Ok z
+  | CAbsent => Ok 1%Z
+  | _ => match to_int c with TI z => Ok z | _ => Ok 1%Z end
   end.
 Definition tag_form (has_plural : bool) (c : countval) : res form :=
   do n <- tag_count c; Ok (if has_plural then null_ngettext n else Singular).
@@ -247,6 +412,66 @@ Definition tag_count_nil_old (c : countval) : res Z := match c with CNil => Err 
 (* before the fix: `if self.plural_block and count:` *)
 Definition tag_form_old (has_plural : bool) (c : countval) : res form :=
   do n <- tag_count c; Ok (if (has_plural && negb (n =? 0)%Z)%bool then null_ngettext n else Singular).
+
+(* what a count denotes, independently of the three entry points: integers, booleans as 0/1, floats truncated,
+   integer strings; everything else denotes no number *)
+Definition count_int (c : countval) : option Z :=
+  match c with
+  | CBool b => Some (if b then 1 else 0)%Z
+  | CInt z => Some z
+  | CFloat m e => Some (Z.quot m (10 ^ Z.of_nat e))
+  | CStr s => py_int s
+  | _ => None
+  end.
+Definition count_no_type (c : countval) : bool :=       (* values int() raises TypeError for *)
+  match c with CAbsent | CNil | CArr | CHash => true | _ => false end.
+
+(* ---- message context and the gettext function that is called ---- *)
+Inductive ctxval := XAbsent | XNil | XBool (b : bool) | XInt (z : Z) | XStr (s : str).
+Inductive gcall := GGet | GNget (n : Z) | GPget (c : str) | GNpget (c : str) (n : Z).
+
+(* the tag: `if message_context:` (Python truthiness), then str() *)
+Definition tag_ctx (x : ctxval) : option str :=
+  match x with
+  | XAbsent | XNil | XBool false => None
+  | XBool true => Some (lit "True")
+  | XInt z => if (z =? 0)%Z then None else Some (Z_to_str z)
+  | XStr s => match s with [] => None | _ => Some s end
+  end.
+Definition tag_call (has_plural : bool) (c : countval) (x : ctxval) : res gcall :=
+  do n <- tag_count c;
+  Ok (match has_plural, tag_ctx x with
+      | true, Some k => GNpget k n
+      | true, None => GNget n
+      | false, Some k => GPget k
+      | false, None => GGet
+      end).
+
+(* the filters: `is not None`, then to_liquid_string *)
+Definition liquid_str_ctx (x : ctxval) : str :=
+  match x with
+  | XAbsent | XNil => []
+  | XBool b => bool_to_str b
+  | XInt z => Z_to_str z
+  | XStr s => s
+  end.
+Definition t_ctx (x : ctxval) : option str :=
+  match x with XAbsent | XNil => None | _ => Some (liquid_str_ctx x) end.
+Definition t_call (has_plural : bool) (c : countval) (x : ctxval) : res gcall :=
+  do n <- t_count c;
+  Ok (match has_plural, n, t_ctx x with
+      | true, Some n, Some k => GNpget k n
+      | true, Some n, None => GNget n
+      | _, _, Some k => GPget k
+      | _, _, None => GGet
+      end).
+Definition pgettext_call (x : ctxval) : gcall := GPget (liquid_str_ctx x).
+Definition ngettext_call (c : countval) : res gcall := do n <- ng_count c; Ok (GNget n).
+Definition npgettext_call (c : countval) (x : ctxval) : res gcall := do n <- ng_count c; Ok (GNpget (liquid_str_ctx x) n).
+
+(* gettext.NullTranslations: the context never matters *)
+Definition null_eval (g : gcall) : form :=
+  match g with GGet | GPget _ => Singular | GNget n | GNpget _ n => null_ngettext n end.
 
 (* ---- correspondence cases ---- *)
 Definition assoc_lookup (vars : list (str * str)) : lookup_fn :=
@@ -263,10 +488,36 @@ Definition run_tag (c : tcase) : tobs :=
   end.
 Definition tobs_eqb (a b : tobs) : bool :=
   match a, b with TOut x, TOut y => str_eqb x y | TErr x, TErr y => exn_eqb x y | _, _ => false end.
+(* the same case through the declarative reading (decompose, normalise the shape, substitute) *)
+Definition run_tag_spec (c : tcase) : tobs :=
+  if names_valid (tc_items c) then TOut (render_items (norm_block (decompose (tc_items c))) (assoc_lookup (tc_vars c)))
+  else TErr ESyntax.
+
+(* which gettext function is called with which context and count, per entry point *)
+Inductive entry := ETag | ETFilter | EGettext | ENgettext | EPgettext | ENpgettext.
+Definition gcall_eqb (a b : gcall) : bool :=
+  match a, b with
+  | GGet, GGet => true
+  | GNget n, GNget m => (n =? m)%Z
+  | GPget c, GPget d => str_eqb c d
+  | GNpget c n, GNpget d m => str_eqb c d && (n =? m)%Z
+  | _, _ => false
+  end.
+Record pcase := { pc_entry : entry; pc_plural : bool; pc_count : countval; pc_ctx : ctxval }.
+Definition run_call (c : pcase) : res gcall :=
+  match pc_entry c with
+  | ETag => tag_call (pc_plural c) (pc_count c) (pc_ctx c)
+  | ETFilter => t_call (pc_plural c) (pc_count c) (pc_ctx c)
+  | EGettext => Ok GGet
+  | ENgettext => ngettext_call (pc_count c)
+  | EPgettext => Ok (pgettext_call (pc_ctx c))
+  | ENpgettext => npgettext_call (pc_count c) (pc_ctx c)
+  end.
+Definition cobs_eqb (a b : res gcall) : bool :=
+  match a, b with Ok x, Ok y => gcall_eqb x y | Err x, Err y => exn_eqb x y | _, _ => false end.
 
 Definition form_eqb (a b : form) : bool := match a, b with Singular, Singular | Plural, Plural => true | _, _ => false end.
-Record pcase := { pc_tag : bool; pc_plural : bool; pc_count : countval }.
-Definition run_plural (c : pcase) : res form :=
-  if pc_tag c then tag_form (pc_plural c) (pc_count c) else Ok (t_form (pc_plural c) (pc_count c)).
+(* the form rendered with null translations *)
+Definition run_plural (c : pcase) : res form := do g <- run_call c; Ok (null_eval g).
 Definition pobs_eqb (a b : res form) : bool :=
   match a, b with Ok x, Ok y => form_eqb x y | Err x, Err y => exn_eqb x y | _, _ => false end.
